@@ -1391,4 +1391,23 @@ theorem decodeStruct_skip_unknowns (fs : CFields) (recs : List Bytes) (rest : By
 `0a 01 00` (field 1, varlen, one byte) is rejected when the claimed buffer length is 1 -/
 example : skipUnknown 2 [1, 0] 1 = .err "unexpectedEof" := by decide
 
+/-! ## the signed fixed-width codecs (`sfixed32` / `sfixed64`)
+
+`Codec.Supported`, `Codec.height` and every theorem of this file quantify over all codecs, so the two constructors are
+covered; spelled out for the record. -/
+example : Codec.Supported .sfixed32 = true ∧ Codec.Supported .sfixed64 = true := ⟨rfl, rfl⟩
+example : Codec.height .sfixed32 = 1 ∧ Codec.height .sfixed64 = 1 := ⟨rfl, rfl⟩
+example : Codec.sfixed32.wire = .fixed32 ∧ Codec.sfixed64.wire = .fixed64 := ⟨rfl, rfl⟩
+/-- totality: no panic, whatever the bytes -/
+example (fuel : Nat) (b : Bytes) (cur : Val) (fl : Flags) (e : String) :
+    decode fuel .sfixed32 b cur fl ≠ .panic e ∧ decode fuel .sfixed64 b cur fl ≠ .panic e :=
+  ⟨decode_ne_panic fuel _ b cur fl e rfl, decode_ne_panic fuel _ b cur fl e rfl⟩
+/-- bound: a successful decode stays inside its bytes -/
+example (fuel : Nat) (b : Bytes) (cur : Val) (fl : Flags) (v : Val) (n : Nat)
+    (h : decode fuel .sfixed64 b cur fl = .ok (v, n)) : n ≤ b.length := decode_bound fuel _ b cur fl v n h
+/-- skipping: an sfixed record under an undeclared number is a complete I32 / I64 payload, hence skipped
+(`decodeStruct_skip_unknown`, `unmarshal_skip_anywhere`) -/
+example (i : Int) : IsPayload Wire.fixed32.num (le32 (BitVec.ofInt 32 i)) ∧ IsPayload Wire.fixed64.num (le64 (BitVec.ofInt 64 i)) :=
+  ⟨isPayload_fixed32 _, isPayload_fixed64 _⟩
+
 end Enc.Lemmas.ProtoDecode
